@@ -445,3 +445,20 @@ for fn, tier, lab in _c04_tree:
                  "root with 2 separators and 3 leaves of 4..8 separators; one Node::change / remove_last call; unwind 32", 3600 if heavy else 900, 22 if heavy else 4, unwind=32, stubs=ENV + TREEC, replay="solver-trace-only"))
 PROPS["C04"]["functions"] += ["btree::node::Node::{change, insert, insert_node, on_existing, remove_last, need_rebalance, split} on a two-level tree (children, node writes and value writes by contract)"]
 PROPS["C04"]["bounds"] += "; two-level trees: root with 2 separators over 3 leaves (4..8 separators each), one insertion / removal / remove_last, rebalance cases borrow-left / borrow-right / merge for leaf and inner children"
+
+# ---- memory classes from measurement: the registered class is an upper bound chosen before the harness was ever run; where a
+# run on the unchanged tree recorded the peak resident memory of the whole process group (lib/measured_rss_mb.json, refreshed
+# by lib/calibrate.py from the evidence files), the admission class is 1.6 x that peak + 1 GB (never above the registered
+# class). The address-space limit of a run stays 2 x registered class + 8 GB, so a changed tree that needs more memory is
+# not cut short by this.
+import json as _json, os as _os, math as _math
+try:
+    _meas = _json.load(open(_os.path.join(_os.path.dirname(_os.path.abspath(__file__)), "measured_rss_mb.json")))
+except Exception:
+    _meas = {}
+for _pid, _hs in _H.items():
+    for _h in _hs:
+        _h["mem_limit_gb"] = _h["mem_gb"] * 2 + 8
+        _p = _meas.get(_h["name"])
+        if _p:
+            _h["mem_gb"] = min(_h["mem_gb"], max(2, int(_math.ceil(1.6 * _p / 1024.0 + 1))))
